@@ -2,17 +2,17 @@
    statistics maps are combined into the loss; the maps themselves are arbitrary reals here) and the traced
    multi_scale_total_variation_loss, against the reference model, for all reals. *)
 From Coq Require Import Reals Lra List.
-From OdakV Require Import Base.RealAux C17.Model C17.Lemmas.
+From OdakV Require Import Base.RealAux C17.Model C17.Lemmas C17.TieTac.
 From Run Require Import GenC17.
 Import ListNotations.
 Open Scope R_scope.
 
 Lemma met_stats_model sa0 sa1 sb ta0 ta1 tb :
   met_stats_t sa0 sa1 sb ta0 ta1 tb = stats_loss [[sa0; sa1]; [sb]] [[ta0; ta1]; [tb]].
-Proof. unfold met_stats_t, stats_loss, mse, rmean, sqd. simpl. field. Qed.
+Proof. unfold met_stats_t, stats_loss, mse, rmean, sqd. simpl. sem. Qed.
 Lemma metu_stats_model sa0 sa1 sb ta0 ta1 tb :
   metu_stats_t sa0 sa1 sb ta0 ta1 tb = stats_loss [[sa0; sa1]; [sb]] [[ta0; ta1]; [tb]].
-Proof. unfold metu_stats_t, stats_loss, mse, rmean, sqd. simpl. field. Qed.
+Proof. unfold metu_stats_t, stats_loss, mse, rmean, sqd. simpl. sem. Qed.
 (* the combination of statistics is non-negative, and zero when both sides carry the same statistics (which is what
    image = target gives when the statistics are a deterministic function of the tensor and the gaze) *)
 Theorem traced_metameric_stats_nonneg sa0 sa1 sb ta0 ta1 tb :
@@ -24,7 +24,7 @@ Proof. rewrite met_stats_model, metu_stats_model. split; apply stats_loss_refl. 
 
 Lemma mstv_model f00 f01 f02 f03 f10 f11 f12 f13 :
   mstv_t f00 f01 f02 f03 f10 f11 f12 f13 = ms_tv [ [[[f00; f01; f02; f03]; [f10; f11; f12; f13]]]; [[[f00; f02]]] ].
-Proof. unfold mstv_t, ms_tv, tv. simpl. field. Qed.
+Proof. unfold mstv_t, ms_tv, tv. simpl. sem. Qed.
 Theorem traced_ms_tv f00 f01 f02 f03 f10 f11 f12 f13 c :
   0 <= mstv_t f00 f01 f02 f03 f10 f11 f12 f13 /\ mstv_t c c c c c c c c = 0.
 Proof.
